@@ -29,6 +29,7 @@ PM = "guppylang_internals.definition.pytket_circuits"
 def run(chk):
     chk.section("wiring", lambda: wiring(chk))
     chk.section("signature", lambda: signature(chk))
+    chk.section("empty-body", lambda: empty_body(chk))
     for i in range(NCH_B):
         chk.section(f"bounded-{i}", lambda i=i: bounded(chk, i))
     chk.expected_min_obligations = 40
@@ -40,6 +41,61 @@ def run(chk):
     ]
     chk.not_covered += ["the unitary the circuit's HUGR implements (tket's responsibility; the bounded layer compares with pytket's own unitary for eighteen circuits, two of them with an implicit qubit permutation)", "angle -> half-turn conversion of parameters beyond unpacking the angle struct (bounded layer only)"]
     chk.assumptions += ["bounded layer: tket.circuit.Tk2Circuit is a stand-in over the installed tket (rotation parameters converted from float half-turns where they enter the circuit function), see C26_oracle.py"]
+
+
+REPLAY_PASS = r'''
+import tempfile, importlib.util, os, sys, shutil, builtins
+sys.path.insert(0, "/verif")
+from contracts.C26_oracle import ORACLE
+exec(ORACLE.split("import itertools, os, tempfile")[0])      # the Tk2Circuit stand-in for this sandbox
+from pytket import Circuit
+from guppylang_internals.error import GuppyError
+c = Circuit(1); c.X(0)
+builtins._c26_circ = c
+res = {}
+for body in ("pass", "...", '"""doc"""', '"""doc"""\n    ...', "x = 1", "pass\n    pass"):
+    src = f"""import builtins
+from guppylang import guppy
+from guppylang.std.quantum import qubit
+@guppy.pytket(builtins._c26_circ)
+def s(q: qubit) -> None:
+    {body}
+"""
+    d = tempfile.mkdtemp(dir=os.environ.get("TMPDIR", "/var/tmp")); fn = os.path.join(d, "replay_c26p.py"); open(fn, "w").write(src)
+    spec = importlib.util.spec_from_file_location("replay_c26p", fn); m = importlib.util.module_from_spec(spec); sys.modules["replay_c26p"] = m
+    try:
+        spec.loader.exec_module(m); m.s.check(); res[body] = "accepted"
+    except GuppyError as ex:
+        res[body] = "rejected:" + type(ex.error).__name__
+    shutil.rmtree(d, ignore_errors=True)
+bad = [b for b in ("pass", "...") if res[b] != "accepted"] + [b for b in ("x = 1", "pass\n    pass") if res[b] == "accepted"]
+print(json.dumps({"violates": bool(bad), "observed": res, "required": "a stub whose signature matches is accepted when its body is `pass` or `...`, rejected when the body has statements"}))
+'''
+
+
+def empty_body(chk):
+    """has_empty_body (ast_util.py) decides whether a @guppy.pytket stub (and a @guppy.declare / custom
+    function) "has no body": RawPytketDef.parse rejects a stub with BodyNotEmptyError otherwise, before the
+    signatures are compared.  Its documented meaning: no statement, a single `pass`, or a single `...`."""
+    from .common import ast_from_source
+    AU = "guppylang_internals.ast_util"
+    e = mk_engine(chk)
+    e.func_info(AU, "has_empty_body")
+    CASES = [("pass", True), ("...", True), ("pass\n    pass", False), ("...\n    ...", False), ("x = 1", False), ("return", False), ("0", False), ("None", False), ("'...'", False),
+             ("pass\n    ...", False), ("f()", False), ("(...)", True)]
+    for body, want in CASES:
+        def t(it, body=body):
+            fd = ast_from_source(it, f"def s(q):\n    {body}\n").fields["body"][0]
+            return it.call(it.lookup_global(e.module(AU), "has_empty_body"), [fd], {})
+        chk.prove_paths(f"has_empty_body[{body!r}]=={want}", e.explore(t), lambda p, want=want: z3.BoolVal(p.kind == "return" and p.value is want), func=f"{AU}:has_empty_body",
+                        replay=lambda m_: {"script": REPLAY_PASS, "input": {}})
+
+    def t0(it):
+        fd = ast_from_source(it, "def s(q):\n    pass\n").fields["body"][0]
+        fd.fields["body"] = []
+        return it.call(it.lookup_global(e.module(AU), "has_empty_body"), [fd], {})
+    chk.prove_paths("has_empty_body[no statements]==True", e.explore(t0), lambda p: z3.BoolVal(p.kind == "return" and p.value is True), func=f"{AU}:has_empty_body")
+    chk.use_engine(e)
 
 
 NCH_B = 8
